@@ -242,6 +242,7 @@ import cmath as _cmath
 exp = _map(lambda v: core.uf('exp', v), lambda v: _cmath.exp(v) if isinstance(v, complex) else real_math.exp(v))
 log10 = _map(lambda v: core.uf('log10', v), real_math.log10)
 log = _map(lambda v: core.uf('log', v), real_math.log)
+sinc = _map(lambda v: core.uf('sinc', v), lambda v: 1.0 if v == 0 else real_math.sin(real_math.pi * v) / (real_math.pi * v))
 isnan = _map(lambda v: False, lambda v: v != v)
 isfinite = _map(lambda v: True, lambda v: real_math.isfinite(v))
 
@@ -393,7 +394,7 @@ def make_np():
     g = globals()
     for nm in ['empty', 'full', 'zeros', 'ones', 'empty_like', 'zeros_like', 'ones_like', 'asarray', 'asanyarray', 'array',
                'ascontiguousarray', 'arange', 'linspace', 'cumsum', 'sum', 'sqrt', 'floor', 'ceil', 'rint', 'round_', 'absolute',
-               'conj', 'conjugate', 'real', 'imag', 'sin', 'cos', 'exp', 'log10', 'log', 'isnan', 'isfinite', 'minimum',
+               'conj', 'conjugate', 'real', 'imag', 'sin', 'cos', 'sinc', 'exp', 'log10', 'log', 'isnan', 'isfinite', 'minimum',
                'maximum', 'isclose', 'concatenate', 'diff', 'all', 'any', 'argsort', 'searchsorted', 'isscalar', 'shape',
                'dtype', 'issubdtype', 'may_share_memory', 'atleast_1d', 'where']:
         d[nm] = g[nm]
@@ -409,6 +410,8 @@ def make_np():
     d['number'] = real_np.number
     d['ndindex'] = real_np.ndindex
     d['s_'] = real_np.s_
+    d['broadcast_to'] = lambda a, shape: as_sarr(real_np.broadcast_to(real_np.ndarray.view(asarray(a), real_np.ndarray), shape))
+    d['geomspace'] = lambda a, b, n: as_sarr(real_np.geomspace(a, b, n))
     d['iinfo'] = lambda t: real_np.iinfo(as_npdtype(t))
     d['finfo'] = lambda t: real_np.finfo(as_npdtype(t))
     return _Namespace('np', d)
